@@ -203,11 +203,13 @@ func (s *ManagedServer) AddCredential(username string, uPSK []byte) error {
 	}
 	s.cachedCredMap[username] = uc
 	s.cachedUserLookupMap[uc.uPSKHash] = c
-	s.mu.Unlock()
-	s.enqueueSave()
+	// Publish to the live lookup maps before releasing the lock, so that
+	// concurrent operations are applied to them in the same order as to the cache.
 	s.updateProdULM(func(ulm ss2022.UserLookupMap) {
 		ulm[uc.uPSKHash] = c
 	})
+	s.mu.Unlock()
+	s.enqueueSave()
 	return nil
 }
 
@@ -241,12 +243,12 @@ func (s *ManagedServer) UpdateCredential(username string, uPSK []byte) error {
 	uc.uPSKHash = uPSKHash
 	delete(s.cachedUserLookupMap, oldUPSKHash)
 	s.cachedUserLookupMap[uc.uPSKHash] = c
-	s.mu.Unlock()
-	s.enqueueSave()
 	s.updateProdULM(func(ulm ss2022.UserLookupMap) {
 		delete(ulm, oldUPSKHash)
-		ulm[uc.uPSKHash] = c
+		ulm[uPSKHash] = c
 	})
+	s.mu.Unlock()
+	s.enqueueSave()
 	return nil
 }
 
@@ -260,11 +262,11 @@ func (s *ManagedServer) DeleteCredential(username string) error {
 	}
 	delete(s.cachedCredMap, username)
 	delete(s.cachedUserLookupMap, uc.uPSKHash)
-	s.mu.Unlock()
-	s.enqueueSave()
 	s.updateProdULM(func(ulm ss2022.UserLookupMap) {
 		delete(ulm, uc.uPSKHash)
 	})
+	s.mu.Unlock()
+	s.enqueueSave()
 	return nil
 }
 
@@ -320,14 +322,16 @@ func (s *ManagedServer) LoadFromFile() error {
 	s.cachedContent = strings.Clone(content)
 	s.cachedUserLookupMap = userLookupMap
 	s.cachedCredMap = credMap
-	s.mu.Unlock()
-
+	// Replace the live lookup maps before releasing the lock: the cache must not
+	// be read (cloned) while another operation mutates it, and a concurrent
+	// add/update/delete must not be overwritten by a stale clone.
 	if s.tcp != nil {
-		s.tcp.ReplaceUserLookupMap(maps.Clone(s.cachedUserLookupMap))
+		s.tcp.ReplaceUserLookupMap(maps.Clone(userLookupMap))
 	}
 	if s.udp != nil {
-		s.udp.ReplaceUserLookupMap(maps.Clone(s.cachedUserLookupMap))
+		s.udp.ReplaceUserLookupMap(maps.Clone(userLookupMap))
 	}
+	s.mu.Unlock()
 
 	return nil
 }
